@@ -28,6 +28,8 @@ Why(r) ==
   CASE r.kind = "cancel" ->
          (IF ~r.returned THEN {"request_blocks_after_cancellation_at_" \o r.point} ELSE {})
          \cup (IF r.leaked > 0 THEN {"goroutine_left_behind_after_cancellation_at_" \o r.point} ELSE {})
+         \cup (IF r.inflight > 0 THEN {"returned_while_its_run_was_in_progress_cancelled_at_" \o r.point} ELSE {})
+         \cup (IF r.late > 0 THEN {"response_writer_used_after_return_cancelled_at_" \o r.point} ELSE {})
          \cup (IF r.returned /\ r.outcome \notin Outcomes THEN {"outcome_" \o r.outcome} ELSE {})
     [] r.kind = "construct" ->
          (IF r.outcome \notin Outcomes THEN {"outcome_" \o r.outcome} ELSE {})
